@@ -351,6 +351,23 @@ class BlockWire(Family):
             raise Viol('deserialised block re-serialises differently', enc[:300], back.serialize()[:300])
         check_truncations(CBlock, enc, bnds, 'block')
         check_extensions(CBlock, enc, to_model, want, TAILS[:4], 'block')
+        if case['tx'] and len(case['tx']) <= 3:
+            # the same block built from the caller's *mutable* transactions: serialise, then the caller goes on editing
+            # his transactions - the (immutable) block keeps its field values and its encoding
+            mtxs = [C.lib_tx(t, mutable=True) for t in b['vtx']]
+            blk = CBlock(b['version'], b['prev'], b['merkle'], b['time'], b['bits'], b['nonce'], vtx=mtxs)
+            if blk.serialize() != enc:
+                raise Viol('block built from mutable transactions serialises differently', enc[:300], blk.serialize()[:300])
+            for t in mtxs:
+                t.nLockTime = (t.nLockTime + 1) & 0xffffffff
+                if t.vout:
+                    t.vout[0].nValue = 1
+                t.vin[0].prevout.n = 77
+                t.vin.append(t.vin[0])
+            if blk.serialize() != enc:
+                raise Viol('encoding of a block changed when the caller edited the mutable transactions it was built from', enc[:300], blk.serialize()[:300])
+            if to_model(blk) != want or CBlock.deserialize(enc) != blk:
+                raise Viol('field values of a block changed when the caller edited the mutable transactions it was built from', None, None)
         return 'ok', bool(case['tx'])
 
 
